@@ -570,6 +570,36 @@ fn par(rep: &mut Report, seed: u64, scale: u64) {
                     if vs != wv {
                         problems.push("par_values".into());
                     }
+                    // std trait impls on the map as it is (possibly mid-resize): Debug of the map and of
+                    // its iterators lists every entry once; Extend<(&K, &V)> equals Extend<(K, V)>
+                    if pi == 0 && rep_i == 0 {
+                        let dbg = format!("{:?}", m);
+                        let inner = dbg.trim_start_matches('{').trim_end_matches('}');
+                        let mut got: Vec<(u64, u64)> = inner.split(", ").filter(|x| !x.is_empty()).filter_map(|kv| {
+                            let mut it = kv.split(": ");
+                            Some((it.next()?.parse().ok()?, it.next()?.parse().ok()?))
+                        }).collect();
+                        got.sort_unstable();
+                        if got != seq.iter().map(|(k, v)| (*k, *v)).collect::<Vec<_>>() {
+                            problems.push(format!("debug: {{:?}} of the map lists {} entries, the map holds {}", got.len(), seq.len()));
+                        }
+                        let count = |s: String| if s == "[]" { 0 } else { s.matches(", ").count() + 1 };
+                        if count(format!("{:?}", m.keys())) != seq.len() || count(format!("{:?}", m.values())) != seq.len() {
+                            problems.push("debug: keys()/values() Debug does not list every entry once".into());
+                        }
+                        let mut x1 = build(None);
+                        let mut x2 = build(None);
+                        let extra: Vec<(u64, u64)> = (0..g.below(40)).map(|i| (i * 5 + 1, i + 7)).collect();
+                        x1.extend(extra.iter().map(|(k, v)| (k, v)));
+                        x2.extend(extra.iter().copied());
+                        if x1 != x2 || x1.len() != x2.len() {
+                            problems.push("extend_ref: Extend<(&K, &V)> differs from Extend<(K, V)>".into());
+                        }
+                        let d: PM = PM::default();
+                        if !d.is_empty() || d.len() != 0 || d.iter().next().is_some() {
+                            problems.push("debug: Default is not empty".into());
+                        }
+                    }
                     // mutate the map itself (it may be mid-resize; a clone never is), then undo
                     pool.install(|| m.par_iter_mut().for_each(|(_, v)| *v += 5));
                     if m.len() != seq.len() || !seq.iter().all(|(k, v)| m.get(k) == Some(&(v + 5))) {
@@ -654,6 +684,36 @@ fn par(rep: &mut Report, seed: u64, scale: u64) {
                             problems.push(format!("{name}: {} vs {}", got.len(), want.len()));
                         }
                     };
+                    if pi == 0 && rep_i == 0 {
+                        // sets: Debug lists every element once; Extend<&T> equals Extend<T>; the lazy
+                        // set-operation iterators can be cloned and debug-printed mid-way
+                        let dbg = format!("{:?}", sa);
+                        let inner = dbg.trim_start_matches('{').trim_end_matches('}');
+                        let mut got: Vec<u64> = inner.split(", ").filter_map(|x| x.parse().ok()).collect();
+                        got.sort_unstable();
+                        let mut want: Vec<u64> = sa.iter().copied().collect();
+                        want.sort_unstable();
+                        if got != want {
+                            problems.push(format!("debug: {{:?}} of the set lists {} elements, it holds {}", got.len(), want.len()));
+                        }
+                        let extra: Vec<u64> = (0..g.below(40)).map(|i| i * 7 + 2).collect();
+                        let mut y1 = sa.clone();
+                        let mut y2 = sa.clone();
+                        let mut y3 = { let mut t = PS::with_hasher(VBuild { kind: hk, seed: 3 }); for k in seq.keys() { t.insert(*k); } if split { t.reserve(seq.len() * 2 + 10); } t };
+                        y1.extend(extra.iter());
+                        y2.extend(extra.iter().copied());
+                        y3.extend(extra.iter());
+                        if y1 != y2 || y3 != y2 {
+                            problems.push("extend_ref: Extend<&T> differs from Extend<T> (sets)".into());
+                        }
+                        let mut it = sa.union(&sb);
+                        let _ = it.next();
+                        let rest_a: Vec<u64> = it.clone().copied().collect();
+                        let rest_b: Vec<u64> = it.copied().collect();
+                        if rest_a != rest_b {
+                            problems.push("debug: a cloned Union iterator continues differently".into());
+                        }
+                    }
                     cmp("par_union", pool.install(|| sa.par_union(&sb).copied().collect()), sa.union(&sb).copied().collect(), &mut problems);
                     cmp("par_intersection", pool.install(|| sa.par_intersection(&sb).copied().collect()), sa.intersection(&sb).copied().collect(), &mut problems);
                     cmp("par_difference", pool.install(|| sa.par_difference(&sb).copied().collect()), sa.difference(&sb).copied().collect(), &mut problems);
@@ -679,8 +739,14 @@ fn par(rep: &mut Report, seed: u64, scale: u64) {
                 rep.tuples.insert(format!("pool{pi} split{split} size{}", (target as f64).log2() as u32));
                 if !problems.is_empty() {
                     rep.fail("C15", format!("threads={} run={rep_i}: {}", [1, 2, 3, 4, 8, 16][pi], problems.join("; ")), log.join("\n"));
-                    if problems.iter().any(|p| p.contains("par_eq")) {
+                    if problems.iter().any(|p| p.contains("par_eq") || p.starts_with("debug:")) {
                         rep.fail("C14", format!("(rayon) {}", problems.join("; ")), log.join("\n"));
+                    }
+                    if problems.iter().any(|p| p.contains("(sets)") || p.contains("of the set") || p.contains("Union iterator")) {
+                        rep.fail("C13", format!("(traits) {}", problems.join("; ")), log.join("\n"));
+                    }
+                    if problems.iter().any(|p| p.starts_with("extend_ref")) {
+                        rep.fail("C01", format!("(traits) {}", problems.join("; ")), log.join("\n"));
                     }
                 }
             }
